@@ -159,22 +159,23 @@ def fuse_comprehensions(t):
     if t[0] == "comp" and len(t[3]) == 1:
         dom, conds = t[3][0]
         inner = _unvar(dom)
-        if inner[0] == "comp" and inner[1] == "list" and len(inner[3]) == 1:
+        if inner[0] == "comp" and inner[1] in ("list", "gen") and len(inner[3]) >= 1:
             outer_bound = None
             for b in subterms(t[2], lambda x: x[0] == "bound" and x[3] == show(dom)) + [b for c in conds for b in subterms(c, lambda x: x[0] == "bound" and x[3] == show(dom))]:
                 outer_bound = b
             if outer_bound is None:
                 # the domain was rewritten after the comprehension was built (its bound still carries the old label): the outer bound is the
                 # one bound variable of the element / tests that does not belong to the inner comprehension
-                inner_label = show(inner[3][0][0])
+                inner_labels = {show(g[0]) for g in inner[3]}
                 cands = []
-                for b in subterms((t[2],) + tuple(conds), lambda x: x[0] == "bound" and isinstance(x[1], int) and x[3] != inner_label):
+                for b in subterms((t[2],) + tuple(conds), lambda x: x[0] == "bound" and isinstance(x[1], int) and x[3] not in inner_labels):
                     if b not in cands:
                         cands.append(b)
                 if len(cands) == 1:
                     outer_bound = cands[0]
             mp = {outer_bound: inner[2]} if outer_bound is not None else {}
             elt = subst(t[2], mp)
-            conds2 = tuple(inner[3][0][1]) + tuple(subst(c, mp) for c in conds)
-            return ("comp", t[1], elt, ((inner[3][0][0], conds2),))
+            last_dom, last_conds = inner[3][-1]
+            conds2 = tuple(last_conds) + tuple(subst(c, mp) for c in conds)
+            return ("comp", t[1], elt, tuple(inner[3][:-1]) + ((last_dom, conds2),))
     return t
